@@ -22,7 +22,7 @@
 #define T12_NV_INDEX_TRIAL 0x0000F004u
 
 #define C20NV_POOL 6
-typedef struct { uint32_t size; uint32_t attrs; } C20NvNote;
+typedef struct { uint32_t size; uint32_t attrs; int zero_auth; /* defined without authorization: the authValue is the all-zero encAuth */ } C20NvNote;
 static C20NvNote c20nv_note[C20NV_POOL];
 static int c20nv_locked;                 /* the harness asked for nvLocked at least once (only steers the choice of commands) */
 static int c20nv_owner;                  /* an owner is installed: owner-authorized variants are issued too */
@@ -59,7 +59,7 @@ static uint32_t c20nv_define(Buf *b, uint32_t idx, uint32_t attrs, uint32_t size
     Rsp r = c20_run(b, "nvdefine"); if (c20nv_skipped(&r)) return r.rc;
     c20nv_trace("define", "rqu", &r, "idx=%u attrs=%u size=%u lr=%u lw=%u", idx, attrs, size, lr, lw); tr_end();
     int s = c20nv_pool_slot(idx);
-    if (r.rc == 0 && s >= 0) { c20nv_note[s].size = size; c20nv_note[s].attrs = attrs; }
+    if (r.rc == 0 && s >= 0) { c20nv_note[s].size = size; c20nv_note[s].attrs = attrs; c20nv_note[s].zero_auth = 1; }
     if (r.rc == 0 && idx == T12_NV_INDEX_LOCK) c20nv_locked = 1;
     return r.rc;
 }
@@ -211,7 +211,10 @@ static Rsp c20_t12c_run(Buf *b, const char *label) {
     tr("op name=other loc=%d ret=%u rc=%u ord=%u stores=%ld", g_locality, r.ret, r.rc, ord, g_store_perm_in_cmd);
     return r;
 }
-static void c20nv_area_auth(uint8_t a[20], uint32_t idx) { for (int i = 0; i < 20; i++) a[i] = (uint8_t)(0xA0 + (idx & 0xf) + i); }
+static void c20nv_area_auth(uint8_t a[20], uint32_t idx) {
+    int sl = c20nv_pool_slot(idx);
+    for (int i = 0; i < 20; i++) a[i] = (sl >= 0 && c20nv_note[sl].zero_auth) ? 0 : (uint8_t)(0xA0 + (idx & 0xf) + i);
+}
 static int c20nv_corrupt(void) { if (c20nv_badauth >= 3 || !chance(12)) return 0; c20nv_badauth++; return 1 + rnd(3); }
 /* the `nv` line of a command sent by the client; `d`/`n`: data written or read back */
 static void c20nv_trace_client(const char *name, int corrupt, int verified, const char *fmt, ...) {
@@ -235,13 +238,14 @@ static void c20nv_install_owner(Buf *b) {
     if (rc == 0) c20nv_owner = 1;
 }
 static void c20nv_define_owner(Buf *b, uint32_t idx, uint32_t attrs, uint32_t size) {
-    uint8_t auth[20]; c20nv_area_auth(auth, idx); int corrupt = c20nv_corrupt(), ver = -1;
+    uint8_t auth[20]; for (int i = 0; i < 20; i++) auth[i] = (uint8_t)(0xA0 + (idx & 0xf) + i);
+    int corrupt = c20nv_corrupt(), ver = -1;
     c20nv_have_main = 0;
     uint32_t rc = t12c_nv_define_owner(b, idx, attrs, size, auth, corrupt, &ver);
     if (!c20nv_have_main) return;
     c20nv_trace_client("define", corrupt, ver, "idx=%u attrs=%u size=%u lr=31 lw=31 out=-", idx, attrs, size); tr_end();
     int sl = c20nv_pool_slot(idx);
-    if (rc == 0 && sl >= 0) { c20nv_note[sl].size = size; c20nv_note[sl].attrs = attrs; }
+    if (rc == 0 && sl >= 0) { c20nv_note[sl].size = size; c20nv_note[sl].attrs = attrs; c20nv_note[sl].zero_auth = 0; }
 }
 static void c20nv_write_client(Buf *b, int area_auth, uint32_t idx, uint32_t off, const uint8_t *d, uint32_t n) {
     uint8_t auth[20]; c20nv_area_auth(auth, idx); int corrupt = c20nv_corrupt(), ver = -1;
